@@ -109,6 +109,11 @@ Theorem C20_repr_roundtrip_refuted :
 Proof. exact repr_roundtrip_refuted. Qed.
 Print Assumptions C20_repr_roundtrip_refuted.
 
+(* the closing sequence of styled text is SGR 0 (reset), which the reader ignores *)
+Theorem C20_reset_is_sgr0 : reset_params = [p_reset] /\ classify p_reset = ANop.
+Proof. exact reset_is_sgr0. Qed.
+Print Assumptions C20_reset_is_sgr0.
+
 (* Color.enabled: explicit override, then NO_COLOR, then FORCE_COLOR, then the tty test *)
 Theorem C20_enabled_table : forall e : colorenv,
   (forall b, e_force e = Some b -> color_enabled e = b) /\
